@@ -249,9 +249,12 @@ pub fn run_schedule(rec: &mut Rec, seed: u64, run: u64, line: &str) {
     }
     let mut calls: Vec<Value> = v["calls"].as_array().unwrap().clone();
     calls.shuffle(&mut r);
-    let (mut auth, unauth): (Vec<Value>, Vec<Value>) = calls.into_iter().partition(|x| x["auth"].as_bool().unwrap());
-    auth.sort_by_key(|x| AUTH_ORDER.iter().position(|o| *o == x["v"].as_str().unwrap()).unwrap_or(99));
-    for call in unauth.iter().chain(auth.iter()) {
+    // per variant: every unauthorised role first (in random order), then the authorised one, so that each
+    // unauthorised attempt is made in a state in which the same payload succeeds for the authorised caller
+    let prio = |x: &Value| AUTH_ORDER.iter().position(|o| *o == x["v"].as_str().unwrap()).unwrap_or(99);
+    calls.sort_by_key(|x| (prio(x), x["auth"].as_bool().unwrap()));
+    let ordered = calls;
+    for call in ordered.iter() {
         let variant = call["v"].as_str().unwrap();
         let role = call["role"].as_str().unwrap();
         let k: u128 = r.gen_range(0..1000);
